@@ -50,6 +50,15 @@ def run(ctx):
         g = srv.greeting()
         outs = ["ok", s.connect(b"", [], "user", "pw", server=srv)]
         reqs = ["c op=new", msref.req_connect(g, [], "user", "pw", later=list(s.wire.segments))]
+        if i % 4 == 0:
+            # a NEIGHBOUR: another client in the same process, on another connection, loses its peer in the middle of a listing or
+            # of a script (Error there) — what this client reads next is its own server's reply and nothing else
+            nb = msref.Session()
+            nb.connect(ms_cases.GREETING + ms_cases.AUTH_OK, [], "other", "pw")
+            if i % 8 == 0:
+                nb.op("listscripts", stream=b'"foreign one"\r\n"foreign two" ACTIVE\r\n"fore', sched=[], eof=True)
+            else:
+                nb.op("getscript", "x", stream=b"{200}\r\n# foreign line 1\r\n# foreign line 2\r\n", sched=[], eof=True)
         sched = r.choice([[], [1] * 9000, [r.randint(1, 9) for _ in range(200)], [7] * 2000])
         nseg = len(s.wire.segments)
         out = s.op("listscripts", sched=list(sched))
